@@ -764,7 +764,9 @@ class ConfigurableReference:
     return not self.__eq__(other)
 
   def __hash__(self):
-    return hash(repr(self))
+    # Not `repr(self)`: that depends on the context it is rendered in.
+    return hash(
+        (tuple(self._scopes), self._configurable.selector, self._evaluate))
 
   def __repr__(self):
     # Check if this reference is a macro or constant, i.e. @.../macro() or
